@@ -23,6 +23,7 @@ fn walk_query(rq: &RQuery, wild: bool, w: &World) -> Option<REnt> {
     e.paging = None;
     e.skip = 0;
     e.first = 0;
+    e.skip_var = None;
     e.alias = None;
     e.out = e.ent_name.clone();
     let ent = &w.schema.entities[e.ent];
@@ -298,6 +299,11 @@ pub fn walk(w: &World, rq: &RQuery, ws: &WalkSpec, wild: bool, main_set: &[Quirk
     o.count("walk-pages", pages as u64);
     if stop == Stop::Completed && seen == full_ids {
         o.label("walk:complete");
+        return;
+    }
+    if stop == Stop::NullKey && seen == full_ids && !ws.before {
+        // the last row has a NULL key, but it is the last row of the result: every row was visited once
+        o.label("walk:complete-ending-on-null-key");
         return;
     }
     let detail = format!(
